@@ -189,6 +189,23 @@ func runDump(what, repo string, pos []string) int {
 			}
 		}
 		fmt.Printf("stats: %+v\n", e.Stats)
+	case "dfloor":
+		e := NewEffects(w)
+		e.Run()
+		x := NewExtractor(w, e)
+		n, bad := 0, 0
+		for _, f := range w.FuncList {
+			for _, st := range x.DFloor(f) {
+				n++
+				mark := "ok "
+				if !st.OK {
+					mark = "BAD"
+					bad++
+				}
+				fmt.Printf("%s %-45s %-22s %-9s %s — %s\n", mark, st.Fn, st.Where, st.Kind, clip(st.Expr, 90), clip(st.Why, 110))
+			}
+		}
+		fmt.Printf("sites=%d unproven=%d\n", n, bad)
 	case "pts":
 		e := NewEffects(w)
 		e.Run()
